@@ -8,6 +8,7 @@ from vf.core import call, exc_desc
 from vf.lazy import ck, libx, common
 
 PROP = "C19"
+TECHNIQUE = ('exhaustive enumeration of the validation grid (3^12 / 4^12 tuples) through the real constructor + runtime monitoring of scaling (snapshots, score homogeneity) and of equivalence / nickname on pairs with known truth')
 RULE = ("(a) validation: EXHAUSTIVE grid of 12-tuples over {0,1,2} (3^12 = 531441, quick) / {0,1/2,1,2} (4^12 = 16.7M, "
         "thorough), accepted <=> predicate of the statement, rejection class = the documented one; plus malformed shapes "
         "and types (single fault each); (b) scaling: new object, original untouched, every entry multiplied, Kemeny scores "
@@ -157,7 +158,6 @@ def run_random(spec, ctx):
             k = rng.choice(gen.SCALES + [1.0, 1, 2, 3, 0.75])
             s = S([list(base[0]), list(base[1])])
             snapshot = [list(s.penalty_vectors[0]), list(s.penalty_vectors[1])]
-            ident = id(s.penalty_vectors), id(s.penalty_vectors[0]), id(s.penalty_vectors[1])
             left = rng.random() < 0.5
             st, t = call((lambda: k * s) if left else (lambda: s * k))
             case = {"scheme": base, "k": k, "side": "k*s" if left else "s*k"}
@@ -168,8 +168,7 @@ def run_random(spec, ctx):
                 continue
             if t is s:
                 ctx.violation("C19/scaling-returns-same-object", "scheme * k returned the original object", case)
-            if [list(s.penalty_vectors[0]), list(s.penalty_vectors[1])] != snapshot or \
-                    ident != (id(s.penalty_vectors), id(s.penalty_vectors[0]), id(s.penalty_vectors[1])):
+            if [list(s.penalty_vectors[0]), list(s.penalty_vectors[1])] != snapshot:
                 ctx.violation("C19/scaling-modified-original", "multiplying modified the original scheme", case,
                               observed=s.penalty_vectors, expected=snapshot)
             want = [[ref.fr(v) * ref.fr(k) for v in base[0]], [ref.fr(v) * ref.fr(k) for v in base[1]]]
